@@ -33,17 +33,17 @@ inline GenCfg profile_cfg(int profile, Rng& rng, bool faults) {
   w[OP_NEW_MOCK] = 4; w[OP_DESTROY_MOCK] = 2; w[OP_MOVE_MOCK] = 2; w[OP_NEW_SEQ] = 2; w[OP_MOVE_SEQ] = 1; w[OP_DESTROY_SEQ] = 1;
   w[OP_EXPECT] = 22; w[OP_RELEASE] = 6; w[OP_ABANDON] = 1; w[OP_CALL] = 40; w[OP_Q_COMPLETED] = 1;
   w[OP_NEW_WATCHED] = 1; w[OP_DESTROY_WATCHED] = 1; w[OP_COPY_WATCHED] = 0; w[OP_MOVECONS_WATCHED] = 0; w[OP_ASSIGN_WATCHED] = 0;
-  w[OP_REQ_DESTRUCTION] = 1; w[OP_RELEASE_MON] = 1; w[OP_PUSH_TRACER] = 1; w[OP_POP_TRACER] = 1; w[OP_SET_REPORTER] = 1; w[OP_MUTATE] = 2; w[OP_WIDE] = 1; w[OP_END_SCOPE] = 3;
+  w[OP_REQ_DESTRUCTION] = 1; w[OP_RELEASE_MON] = 1; w[OP_PUSH_TRACER] = 1; w[OP_POP_TRACER] = 1; w[OP_SET_REPORTER] = 1; w[OP_MUTATE] = 2; w[OP_WIDE] = 1; w[OP_END_SCOPE] = 3; w[OP_UNWIND] = 1; w[OP_ASSIGN_SEQ] = 1;
   c.nested_pct = 14; c.fault_pct = 10;
   switch (profile) {
     case PF_BOUNDS: w[OP_CALL] = 60; w[OP_EXPECT] = 20; c.inverted_pct = 6; break;
-    case PF_LIFETIME: w[OP_END_SCOPE] = 8; w[OP_RELEASE] = 14; w[OP_DESTROY_MOCK] = 8; w[OP_MOVE_MOCK] = 6; w[OP_ABANDON] = 3; w[OP_NEW_MOCK] = 8; break;
-    case PF_SEQ: w[OP_NEW_SEQ] = 4; w[OP_DESTROY_SEQ] = 2; w[OP_Q_COMPLETED] = 3; w[OP_REQ_DESTRUCTION] = 4; w[OP_NEW_WATCHED] = 3; w[OP_DESTROY_WATCHED] = 4; w[OP_RELEASE] = 8; break;
+    case PF_LIFETIME: w[OP_END_SCOPE] = 8; w[OP_UNWIND] = 3; w[OP_RELEASE] = 14; w[OP_DESTROY_MOCK] = 8; w[OP_MOVE_MOCK] = 6; w[OP_ABANDON] = 3; w[OP_NEW_MOCK] = 8; break;
+    case PF_SEQ: w[OP_ASSIGN_SEQ] = 2; w[OP_NEW_SEQ] = 4; w[OP_DESTROY_SEQ] = 2; w[OP_Q_COMPLETED] = 3; w[OP_REQ_DESTRUCTION] = 4; w[OP_NEW_WATCHED] = 3; w[OP_DESTROY_WATCHED] = 4; w[OP_RELEASE] = 8; break;
     case PF_FORBID: w[OP_RELEASE] = 10; break;
     case PF_CLAUSES: c.nested_pct = 35; c.fault_pct = 25; w[OP_MUTATE] = 10; w[OP_WIDE] = 8; break;
     case PF_WATCHED: w[OP_NEW_WATCHED] = 12; w[OP_DESTROY_WATCHED] = 12; w[OP_COPY_WATCHED] = 4; w[OP_MOVECONS_WATCHED] = 4; w[OP_ASSIGN_WATCHED] = 5;
       w[OP_REQ_DESTRUCTION] = 16; w[OP_RELEASE_MON] = 10; w[OP_CALL] = 10; w[OP_EXPECT] = 8; w[OP_NEW_SEQ] = 3; w[OP_ABANDON] = 2; break;
-    case PF_DESTROY: w[OP_DESTROY_MOCK] = 8; w[OP_MOVE_MOCK] = 8; w[OP_DESTROY_SEQ] = 6; w[OP_MOVE_SEQ] = 4; w[OP_NEW_SEQ] = 6; w[OP_RELEASE] = 10; w[OP_ABANDON] = 3;
+    case PF_DESTROY: w[OP_ASSIGN_SEQ] = 4; w[OP_DESTROY_MOCK] = 8; w[OP_MOVE_MOCK] = 8; w[OP_DESTROY_SEQ] = 6; w[OP_MOVE_SEQ] = 4; w[OP_NEW_SEQ] = 6; w[OP_RELEASE] = 10; w[OP_ABANDON] = 3;
       w[OP_NEW_WATCHED] = 5; w[OP_DESTROY_WATCHED] = 6; w[OP_REQ_DESTRUCTION] = 6; w[OP_RELEASE_MON] = 5; w[OP_COPY_WATCHED] = 2; w[OP_MOVECONS_WATCHED] = 2; w[OP_ASSIGN_WATCHED] = 2;
       w[OP_NEW_MOCK] = 8; w[OP_PUSH_TRACER] = 2; w[OP_POP_TRACER] = 2; c.nested_pct = 15; break;
     case PF_REPORTS: w[OP_CALL] = 50; w[OP_DESTROY_MOCK] = 5; w[OP_DESTROY_SEQ] = 3; w[OP_RELEASE] = 10; w[OP_DESTROY_WATCHED] = 3; w[OP_REQ_DESTRUCTION] = 3; w[OP_NEW_WATCHED] = 2; break;
@@ -226,6 +226,17 @@ class Generator {
       case OP_SET_REPORTER: return mk(k, rng_.below(2));
       case OP_NEW_WATCHED: return mk(k, 0, rng_.below(100));
       case OP_COPY_WATCHED: case OP_MOVECONS_WATCHED: return mk(k, rng_.below(12), rng_.below(2));
+      case OP_RELEASE: {
+        Op o = mk(k, rng_.below(12));
+        if (depth == 0 && cfg_.nested_pct && rng_.below(100) < cfg_.nested_pct) {
+          // only operations whose outcome does not depend on whether the dying expectation still counts as registered
+          static const int kinds[] = {OP_DESTROY_MOCK, OP_DESTROY_MOCK, OP_RELEASE};
+          Op in = gen_kind(kinds[rng_.below(3)], 2);
+          in.nested.clear(); if (in.kind == OP_EXPECT) in.a[8] &= 1;
+          o.nested.push_back({0, in});
+        }
+        return o;
+      }
       case OP_ABANDON: return mk(k, rng_.below(4));
       case OP_WIDE: return mk(k, rng_.below(64), rng_.below(50));
       default: return mk(k, rng_.below(12));
